@@ -17,7 +17,8 @@ def run(ck):
     ck.stream("random-schedules", cases, "C01_lts", "C01_lts", "C01_ok",
               nontrivial=lambda c: len(c[4]) >= 3 and c[1] >= 2, sig=lambda c, e, o: "lts", timeout=1500)
     transports(ck)
-    return ck.finish(rule="(2) transport adapters: " + TRANSPORT_RULE + " (1) random schedules of publisher / attach / stop / consumer goroutines (1-4 consumers, <= 20 packets on the "
+    buffer_independence(ck)
+    return ck.finish(rule="(3) adapter buffers: " + POOL_RULE + " (2) transport adapters: " + TRANSPORT_RULE + " (1) random schedules of publisher / attach / stop / consumer goroutines (1-4 consumers, <= 20 packets on the "
                           "video and audio channels incl. parameter sets and key frames, GOP cache on/off) replayed through the "
                           "schedule points on a real media.Stream with recording consumers; non-trivial = >= 2 consumers and >= 3 packets")
 
@@ -55,3 +56,28 @@ def transports(ck):
     ck.extra["transport_clients_with_media"] = {str(k): v for k, v in sorted(seen.items())}
     if obs and any(seen.get(k, 0) < 2 for k in range(7)):
         ck.broken.append(Broken("C01 transports: a transport no longer carries media in the harness: %r" % seen))
+
+
+POOL_RULE = ("2-3 viewers of one stream (WSP data channels, ws-rtsp, RTSP/TCP; mostly two WSP) on scripted connections under the "
+             "schedule controller with one P: after 0-3 packets one viewer is parked inside its data-channel socket write - before any "
+             "byte of the message is taken from the caller's buffer, or between the two halves of the message - while 2-5 more packets "
+             "are published and the other viewers' delivery goroutines deliver them completely (every pooled buffer is taken and "
+             "returned), optionally a keep-alive request of some viewer is answered in that window; then the viewer is released message "
+             "by message; every viewer must have received exactly its own subscribed packets, in order, byte-identical (ok_wire).")
+
+def buffer_independence(ck):
+    rng = ck.rng
+    n = 800 if ck.thorough else 60
+    cases = [T.gen_pool_case(rng) for _ in range(n)]
+    obs = ck.stream("buffer-independence", cases, None, "C01_pool", "C01_wire_ok", compare=False,
+                    nontrivial=lambda c: len(c[2]) >= 2, sig=lambda c, e, o: "adapter-buffer", timeout=1500)
+    parked = 0
+    for o in obs:
+        try:
+            v = vparse(o)
+            parked += isinstance(v[0], list) and v[2] == b""
+        except Exception:
+            pass
+    ck.extra["buffer_independence_parked"] = parked
+    if obs and parked < len(cases) // 2:
+        ck.broken.append(Broken("C01 buffer-independence: the viewer was parked inside its write in only %d of %d cases" % (parked, len(cases))))
